@@ -10,6 +10,18 @@ BASE = ("cd /repo && env -u TRACKLIB_VERIF_TRACE /venv/bin/python -m pytest -ra 
 
 # pid -> (module(s), technique, level text, level note, design ref)
 CHECKS = {
+    "C14": ("Frames", "TLA+ state machine of coordinate frames (what the stored triples really express vs the SRID / base the Track "
+            "records) checked by TLC on every conversion history; every history printed by the model with the frame and base "
+            "it assigns per step is replayed on real Tracks and coordinate objects, concrete triples being mapped back to "
+            "geographic coordinates by an independent WGS84 reference in the harness (spec->code + reference abstraction)",
+            "TLC: denotation preserved, real base recorded, base changed only by projections on all histories of 5 (thorough 7) "
+            "track-level conversions (refuted variant as self-test). Every history is replayed for 4 (12) assignments of "
+            "positions / bases from a lattice holding the antimeridian, the equator, +-89.9 degrees and heights -1 km..10 km "
+            "(France for Lambert-93): geographic and Earth-centred states must denote the original position to 1e-9 degree of arc "
+            "and 1 mm, Earth-centred triples must equal the closed-form WGS84 values to 1 mm, the base's own local coordinates "
+            "must be (0,0,0), Track.base and SRID must be the model's.",
+            "TLC 1.8 cannot compute trigonometry: the concrete->abstract map (WGS84 forward / iterative inverse / ENU rotation) "
+            "is a trusted reference in the harness; intermediate local frames are judged to 1e-7 degree / 1 cm only", "5/C14"),
     "C13": ("IOLayout", "TLA+ model of the file layer (relative column order of the writer vs absolute indices of the reader, "
             "class-level time formats with explicit save / install / restore steps, GPX forcing the ISO format, network rows "
             "and header skipping) checked by TLC; every configuration, history and network printed by the model with its "
